@@ -10,3 +10,7 @@ pub fn opaque_error<T>(t: T) -> (r: AnyErr) {
 pub fn opaque_string<T>(t: T) -> (r: String) {
     unimplemented!()
 }
+
+// N15 (ASSUMED): the characters of a String, in order, as a vector (stands for `.chars()`)
+#[verifier::external_body]
+pub fn vx_chars(s: String) -> (r: Vec<char>) { s.chars().collect() }
